@@ -1,5 +1,6 @@
 import TLVerif.Util.Hex
 import TLVerif.Codec.TL1
+import TLVerif.Codec.TL1Wf
 /-! Shared definitions of the `codec` line-protocol handlers. -/
 namespace TLVerif.Codec
 open TLVerif.Util TLVerif.Prim
@@ -18,8 +19,6 @@ def errStr : CErr → String
   | .desc => "model-err desc"
   | .fuel => "model-err fuel"
   | .shape => "err shape"
-
-def fuelFor (d : Desc) (n : Nat) : Nat := n + d.insts.size + 16
 
 def outBytes (r : Except CErr Bytes) : String :=
   match r with
